@@ -41,6 +41,8 @@ inductive Ev
   | release (k : Key)                     -- finish_fetch(k)
   | die (c : Claimant)
   | tick (d : Nat)
+  | store (k : Key) (vs : List Text)      -- replace_versions(k) by whoever (normally the owner, while it holds the claim)
+  | mark (k : Key)                        -- mark_not_found(k)
 
 def timeout : Int := Generated.fetchTimeoutMs
 
@@ -75,6 +77,8 @@ def step (σ : Sys) : Ev → Sys
   | .release k => { σ with db := σ.db.stmtFinish k, wins := σ.wins.filter (·.key != k) }
   | .die c => { σ with pending := σ.pending.filter (·.1 != c), entered := σ.entered.filter (·.1 != c) }
   | .tick d => { σ with now := σ.now + d }
+  | .store k vs => { σ with db := Cache.replaceVersions σ.db k vs σ.now }
+  | .mark k => { σ with db := Cache.markNotFound σ.db k σ.now }
 
 def runEvs (σ : Sys) (evs : List Ev) : Sys := evs.foldl step σ
 
